@@ -94,15 +94,18 @@ class FaultyStream:
     self.container = container
     self.yielded = 0
     self.iterations = 0
+    self.raised = False        # the injected failure has fired (whatever the library made of it)
     self._it = None
 
   def _gen(self):
     for k, s in enumerate(self.samples):
       if self.fail_at is not None and k == self.fail_at:
+        self.raised = True
         raise SimulatedIOError('simulated stream failure before sample %d' % k)
       self.yielded += 1
       yield s
     if self.fail_at is not None and self.fail_at >= len(self.samples):
+      self.raised = True
       raise SimulatedIOError('simulated stream failure after the last sample')
 
   def __iter__(self):
